@@ -1,4 +1,258 @@
 package main
 
-// runCorpus is replaced by the sensitivity corpus runner (corpus_run.go).
-var runCorpus = func(id, repo, verif string) any { return map[string]any{"note": "corpus not built"} }
+import (
+	"encoding/json"
+	"fmt"
+	"os"
+	"os/exec"
+	"path/filepath"
+	"sort"
+	"strings"
+	"sync"
+)
+
+// Sensitivity corpus: named source edits (seeded property-breaking changes and
+// behaviour-preserving refactorings) applied through a go/packages overlay —
+// nothing is written into /repo. Each variant is analysed in its own
+// subprocess. Breaking variants must be reported with a key containing
+// Expect; refactorings must be silent.
+
+type Variant struct {
+	ID     string   `json:"id"`
+	Props  []string `json:"props"`
+	Kind   string   `json:"kind"` // breaking | refactor
+	File   string   `json:"file"` // relative to the repository root
+	Old    string   `json:"old"`
+	New    string   `json:"new"`
+	Edits  []Edit   `json:"edits,omitempty"` // additional edits (same or other files)
+	Expect string   `json:"expect,omitempty"`
+	Note   string   `json:"note,omitempty"`
+}
+
+type Edit struct {
+	File string `json:"file"`
+	Old  string `json:"old"`
+	New  string `json:"new"`
+}
+
+type variantResult struct {
+	ID      string   `json:"id"`
+	Kind    string   `json:"kind"`
+	Outcome string   `json:"outcome"` // fired | missed | silent | false-alarm | inapplicable | error
+	Keys    []string `json:"keys,omitempty"`
+}
+
+func loadVariants(verif string) ([]Variant, error) {
+	files, _ := filepath.Glob(filepath.Join(verif, "corpus", "*.json"))
+	sort.Strings(files)
+	var out []Variant
+	for _, f := range files {
+		data, err := os.ReadFile(f)
+		if err != nil {
+			return nil, err
+		}
+		var vs []Variant
+		if err := json.Unmarshal(data, &vs); err != nil {
+			return nil, fmt.Errorf("%s: %w", f, err)
+		}
+		out = append(out, vs...)
+	}
+	return out, nil
+}
+
+func buildOverlay(repo string, v Variant) (map[string]string, bool) {
+	edits := append([]Edit{{v.File, v.Old, v.New}}, v.Edits...)
+	content := map[string]string{}
+	for _, e := range edits {
+		p := filepath.Join(repo, e.File)
+		cur, ok := content[p]
+		if !ok {
+			data, err := os.ReadFile(p)
+			if err != nil {
+				return nil, false
+			}
+			cur = string(data)
+		}
+		if strings.Count(cur, e.Old) != 1 {
+			return nil, false
+		}
+		content[p] = strings.Replace(cur, e.Old, e.New, 1)
+	}
+	return content, true
+}
+
+func runVariant(exe, repo, prop string, v Variant) variantResult {
+	res := variantResult{ID: v.ID, Kind: v.Kind}
+	ov, ok := buildOverlay(repo, v)
+	if !ok {
+		res.Outcome = "inapplicable"
+		return res
+	}
+	tmp, err := os.CreateTemp("", "sthlint-ov-*.json")
+	if err != nil {
+		res.Outcome = "error"
+		return res
+	}
+	defer os.Remove(tmp.Name())
+	data, _ := json.Marshal(ov)
+	tmp.Write(data)
+	tmp.Close()
+	cmd := exec.Command(exe, "-property", prop, "-repo", repo, "-overlay", tmp.Name(), "-no-evidence")
+	out, _ := cmd.CombinedOutput()
+	var bad []string
+	for _, line := range strings.Split(string(out), "\n") {
+		if strings.HasPrefix(line, "BAD ") {
+			parts := strings.SplitN(line[4:], " | ", 2)
+			bad = append(bad, parts[0])
+		}
+		if strings.HasPrefix(line, "VIOLATION") || strings.Contains(line, "engine/undecided") {
+			if strings.Contains(string(out), "engine/undecided") {
+				bad = append(bad, "engine/undecided: "+firstLineAfter(string(out), "engine/undecided"))
+			}
+		}
+	}
+	res.Keys = bad
+	switch v.Kind {
+	case "refactor":
+		if len(bad) == 0 {
+			res.Outcome = "silent"
+		} else {
+			res.Outcome = "false-alarm"
+		}
+	default:
+		res.Outcome = "missed"
+		for _, k := range bad {
+			if strings.HasPrefix(k, "engine/undecided") {
+				res.Outcome = "error"
+				break
+			}
+			if v.Expect == "" || strings.Contains(k, v.Expect) {
+				res.Outcome = "fired"
+			}
+		}
+	}
+	return res
+}
+
+func firstLineAfter(s, marker string) string {
+	i := strings.Index(s, marker)
+	if i < 0 {
+		return ""
+	}
+	rest := s[i+len(marker):]
+	if j := strings.IndexByte(rest, '\n'); j >= 0 {
+		rest = rest[:j]
+	}
+	if len(rest) > 200 {
+		rest = rest[:200]
+	}
+	return rest
+}
+
+func corpusFor(id, repo, verif string) any {
+	vs, err := loadVariants(verif)
+	if err != nil {
+		return map[string]any{"error": err.Error()}
+	}
+	exe, err := os.Executable()
+	if err != nil {
+		return map[string]any{"error": err.Error()}
+	}
+	var mine []Variant
+	for _, v := range vs {
+		for _, p := range v.Props {
+			if p == id {
+				mine = append(mine, v)
+			}
+		}
+	}
+	results := make([]variantResult, len(mine))
+	sem := make(chan struct{}, 8)
+	var wg sync.WaitGroup
+	for i, v := range mine {
+		wg.Add(1)
+		go func(i int, v Variant) {
+			defer wg.Done()
+			sem <- struct{}{}
+			defer func() { <-sem }()
+			results[i] = runVariant(exe, repo, id, v)
+		}(i, v)
+	}
+	wg.Wait()
+	counts := map[string]int{}
+	var problems []variantResult
+	for _, r := range results {
+		counts[r.Outcome]++
+		if r.Outcome == "missed" || r.Outcome == "false-alarm" || r.Outcome == "error" {
+			problems = append(problems, r)
+		}
+	}
+	return map[string]any{
+		"variants":            len(mine),
+		"fired":               counts["fired"],
+		"missed":              counts["missed"],
+		"silent_on_refactors": counts["silent"],
+		"false_alarms":        counts["false-alarm"],
+		"inapplicable":        counts["inapplicable"],
+		"errors":              counts["error"],
+		"disagreements":       problems,
+		"results":             results,
+	}
+}
+
+func init() { runCorpus = corpusFor }
+
+var runCorpus func(id, repo, verif string) any
+
+// selfTest runs the whole corpus for every property and prints a matrix;
+// disagreement is fatal here (developer command), not in registered checks.
+func selfTest(repo, verif string, only string) int {
+	vs, err := loadVariants(verif)
+	if err != nil {
+		fmt.Println("corpus:", err)
+		return 2
+	}
+	exe, _ := os.Executable()
+	type job struct {
+		v    Variant
+		prop string
+	}
+	var jobs []job
+	for _, v := range vs {
+		for _, p := range v.Props {
+			if only != "" && p != only && v.ID != only {
+				continue
+			}
+			jobs = append(jobs, job{v, p})
+		}
+	}
+	results := make([]variantResult, len(jobs))
+	sem := make(chan struct{}, 12)
+	var wg sync.WaitGroup
+	for i, j := range jobs {
+		wg.Add(1)
+		go func(i int, j job) {
+			defer wg.Done()
+			sem <- struct{}{}
+			defer func() { <-sem }()
+			results[i] = runVariant(exe, repo, j.prop, j.v)
+		}(i, j)
+	}
+	wg.Wait()
+	bad := 0
+	counts := map[string]int{}
+	for i, r := range results {
+		counts[r.Outcome]++
+		mark := "  "
+		if r.Outcome == "missed" || r.Outcome == "false-alarm" || r.Outcome == "error" {
+			mark = "!!"
+			bad++
+		}
+		fmt.Printf("%s %-4s %-44s %-9s %-12s %s\n", mark, jobs[i].prop, r.ID, r.Kind, r.Outcome, strings.Join(r.Keys, " ; "))
+	}
+	fmt.Printf("selftest: %d jobs: %v\n", len(jobs), counts)
+	if bad > 0 {
+		return 1
+	}
+	return 0
+}
